@@ -72,6 +72,35 @@ CHECKS = {
          'lexical __hash__ replaced by the type rank while coordinates are symbolic; the real hash is compared '
          'on the concrete witness of each path. Pickle and immutability are concrete.',
     technique='proxy-based symbolic execution (pysymex) of the real constructors and comparison kernel'),
+ 'C15': dict(
+    engine=E1, category='model_checking', design='6 C15',
+    text='The real substitute, unquantify (c >> q), negative() and the published derived attributes run '
+         'under the proxy symbolic executor on enumerated sentence shapes whose parameters, bound variables and '
+         'letter subscripts are z3 integers and whose parameter kinds are symbolic picks; every aliasing pattern '
+         '(pnew == pold, pold absent, shared parameters under nested quantifiers) is a path; results are compared '
+         'as ident trees with symbolic leaves against an independent walker.',
+    note='Bound: 14 shapes of depth <= 2 (quick) / 17 of depth <= 3 (thorough). Stub: lexical hash abstraction. '
+         'Reference semantics: spec/walker.py.',
+    technique='proxy-based symbolic execution (pysymex) compared with a reference walker'),
+ 'C16': dict(
+    engine=E1, category='model_checking', design='6 C16',
+    text='The real Tableau is built with max_steps = k for a z3 integer k over all of Z; the explorer partitions '
+         'Z into the n+2 classes the code distinguishes, each a complete real run that stops after that prefix '
+         'and finishes, so tree and statistics are observable for every prefix. Event monitors check the per-step '
+         'facts; public state is compared with recomputed values.',
+    note='Argument shapes (repository examples, modal and first-order families) and the node-order seed are '
+         'enumerated: 19 arguments per logic in the quick tier. Options are the defaults.',
+    technique='proxy-based symbolic execution (pysymex) with a symbolic step limit'),
+ 'C17': dict(
+    engine=E1, category='model_checking', design='6 C17',
+    text='Symbolic step limit (all of Z), symbolic clock (tools.timing._nowms stubbed by arbitrary non-decreasing '
+         'z3 integers) and time limit, and symbolic API call sequences drive the real Tableau; per path: '
+         'three-valued verdicts, len(history) <= k decided on the path condition, prefix of the unlimited '
+         'history, timeout leaves the tableau finished/premature/tree-less, finished tableaux do not change, '
+         'setters raise IllegalStateError.',
+    note='Bounds: 13 arguments per logic for k; 8 logics x 4 tiny arguments for the clock (quick); call sequences '
+         'of <= 3 (quick) / 4 calls on 8 logics. Stubs: the clock, int(T) in the timeout message.',
+    technique='proxy-based symbolic execution (pysymex): symbolic limit, clock stub, call-sequence picks'),
  'C18': dict(
     engine=E1, category='model_checking', design='6 C18',
     text='The real qset, linqset and Predicates run under the proxy symbolic executor on every operation '
